@@ -186,7 +186,7 @@ def run(ctx):
     ctx.assumptions = ["every property theorem: Closed under the global context"]
     n = 3000 if thorough else 260
     cases = [gen_case(rnd, thorough) for _ in range(n)]
-    impl = ctx.run_impl("impl_array.py", {"cases": cases}, timeout=3000)
+    impl = ctx.run_impl_cases("impl_array.py", cases, jobs=8, timeout=3000)
     terms, inputs, failures, all_obs = [], [], [], []
     for c, r in zip(cases, impl):
         inp = {"dtype": c["dtype"], "shape": c["shape"], "create": c["create"], "compression": c["comp"], "ops": c["ops"]}
